@@ -9,7 +9,7 @@
   engine where registered; this module decides the refuse / do-not-expire half.
 """
 import json, os, shutil, time
-import vbuild, vtlc, engine, gen_role, gen_rt, checklib
+import vbuild, vtlc, engine, gen_role, gen_rt, gen_conc, checklib
 from vbuild import VERIF, InfraError
 from checks import lockfam
 
@@ -61,6 +61,17 @@ def run(prop, tier, seed):
                 raise InfraError(f"engine RT died on {fin}:\n" + (p.stdout or "")[-3000:] + (p.stderr or "")[-2000:])
             traces.append(fout)
         scs = scs + rt
+        # engine C: a role change racing the requests of a phase (the request is parked at its entry yield point,
+        # before the shard mutex, while the node stops being the leader)
+        conc = [gen_conc.gen_conc_role(seed, i) for i in range(96 if quick else 1200)]
+        with open(os.path.join(VERIF, "scenarios", "conc_role_directed.json")) as fh:
+            conc += json.load(fh)
+        resc = engine.run_harness(binp, "TestVerifC", conc, os.path.join(wd, "runc"), tag="c")
+        for fin, fout, p in resc:
+            if p is not None:
+                raise InfraError(f"engine C died on {fin}:\n" + (p.stdout or "")[-3000:] + (p.stderr or "")[-2000:])
+            traces.append(fout)
+        scs = scs + conc
         viols, mst = engine.monitor_traces("MonLock", traces, [prop], os.path.join(wd, "mon"))
         byname = {sc["name"]: sc for sc in scs}
         for v in viols:
@@ -84,18 +95,23 @@ def run(prop, tier, seed):
                 break
         if stest["rejected"] is False:
             raise InfraError("self-test failed: corrupted trace accepted")
-        nonleader_reqs = 0
+        nonleader_reqs = npass = 0
         for tr in traces:
             status = 1
             for ln in open(tr):
                 if '"e":"status"' in ln:
                     status = json.loads(ln)["status"]
+                elif '"e":"begin"' in ln[:40]:
+                    status = 1
                 elif status != 1 and '"e":"req"' in ln:
                     nonleader_reqs += 1
+                elif status != 1 and '"e":"pass"' in ln:
+                    npass += 1
         out.coverage = {"states": st["distinct"], "transitions": st["generated"], "traces_validated_against_impl": len(scs),
                         "samples": [{"name": scs[0]["name"], "steps": scs[0]["steps"][:14]}], "exhaustive": True,
                         "model": {"module": "spec/LockEngine.tla", "roles": ["leader", "follower"], "max_role_changes": 2, "wall_s": round(r["wall"], 1)},
-                        "requests_sent_to_non_leader": nonleader_reqs, "monitor": mst, "selftest": stest,
+                        "requests_sent_to_non_leader": nonleader_reqs, "gated_role_race_histories": len(conc),
+                        "requests_passing_their_entry_point_on_a_non_leader": npass, "monitor": mst, "selftest": stest,
                         "evaluations": len(scs), "distinct_nontrivial": len({json.dumps(s["steps"], sort_keys=True) for s in scs}),
                         "rule": "one evaluation = one role-change history replayed on the real code and validated by the TLA+ monitor"}
         out.assumptions = ["role switched in-process on a leader instance; forwarding through a follower port not exercised here",
